@@ -371,6 +371,8 @@ theorem Inv.step {s : SlotBelt} (h : Inv s) (op : Op) : Inv (s.step op).1 := by
   cases op with
   | reservePut p => exact SI.trigPut (hs'.congr ⟨rfl, rfl, rfl, rfl, rfl, rfl, rfl⟩)
   | reserveGet p => exact SI.trigGet (hs'.congr ⟨rfl, rfl, rfl, rfl, rfl, rfl, rfl⟩)
+  | reservePutP p pr => exact SI.trigPut (hs'.congr ⟨rfl, rfl, rfl, rfl, rfl, rfl, rfl⟩)
+  | reserveGetP p pr => exact SI.trigGet (hs'.congr ⟨rfl, rfl, rfl, rfl, rfl, rfl, rfl⟩)
   | put p t x => exact hs'.put hk' hr' p t x
   | get p t => exact hs'.get p t
   | cancelPut t => exact hs'.cancelPut t
